@@ -296,6 +296,14 @@ class Planted(Part):
         if why:
             return Mismatch("planted:strict " + why, dict(
                 detail, token=tok, offset=off, eol=case.get("eol")))
+        # --- strict, as a file template used more than once: every use
+        # reports the error (the object does not remember a failed attempt
+        # as a compiled state)
+        if len(src) % 4 == 0:
+            why = self.file_twice(given, tok)
+            if why:
+                return Mismatch("planted:strict file template " + why,
+                                detail)
         # --- non-strict
         o = run(make, given, False, via)
         if not o.ok:
@@ -343,6 +351,43 @@ class Planted(Part):
             return Mismatch("planted:K7", detail)
         return Mismatch("planted:non-strict %s vs %s" % (got[0], exp[0]),
                         detail)
+
+    @staticmethod
+    def file_twice(source, token):
+        import os
+        import tempfile
+        from chameleon import PageTemplateFile
+        from chameleon.exc import ExpressionError
+        fd, path = tempfile.mkstemp(prefix="c19-", suffix=".pt")
+        try:
+            with os.fdopen(fd, "w", encoding="utf-8", newline="") as f:
+                f.write(source)
+            t = PageTemplateFile(path, strict=True)
+            first = None
+            for k in range(3):
+                r = run(t.render)
+                if r.ok:
+                    return "use %d rendered" % (k + 1)
+                if not isinstance(r.exc, ExpressionError):
+                    return "use %d raises %s" % (k + 1, r.exc_name)
+                now = (str(r.exc.token), r.exc.offset)
+                if first is None:
+                    first = now
+                elif now != first:
+                    return "use %d reports another error" % (k + 1)
+            # ... and writing the same text into a string template again
+            from chameleon import PageTemplate
+            st_ = PageTemplate("<p>valid</p>", strict=True)
+            for k in range(2):
+                r = run(st_.write, source)
+                if r.ok or not isinstance(r.exc, ExpressionError):
+                    return "write %d accepted the text" % (k + 1)
+        finally:
+            try:
+                os.unlink(path)
+            except OSError:
+                pass
+        return None
 
     @staticmethod
     def entity_before(src, true):
